@@ -17,7 +17,10 @@ def valid_frame(rng, a):
         lat = F.Fraction(r(-8000, 8000), 100); lon = F.Fraction(r(-17900, 17900), 100)
         odd = r(2)
         la, lo = F.cpr_encode(lat, lon, odd)
-        return F.df17(r(8), a, F.me_airpos(r(9, 19), r(4), 0, F.ac12_q1(r(40, 2000)), 0, odd, la or 1, lo or 1))
+        if r(8) == 0:
+            # a position exactly on a zone edge: a CPR field of 0 is a valid value (the code reads it as "nothing received")
+            la, lo = rng.choice([(0, lo), (la, 0), (0, 0)])
+        return F.df17(r(8), a, F.me_airpos(r(9, 19), r(4), 0, F.ac12_q1(r(40, 2000)), 0, odd, la, lo))
     if k == 9:
         la, lo = gen.rand_cpr(rng)
         return F.df17(r(8), a, F.me_surface(r(5, 9), r(128), 1, r(128), 0, r(2), la or 1, lo or 1))
@@ -105,9 +108,22 @@ class C19(PropBase):
                     return
             rep.nontriv(("repeat", hi))
         # -U neutrality
-        for hi in range(40 if tier == "quick" else 800):
+        nU = 40 if tier == "quick" else 800
+        for hi in range(nU + nU // 2):
             addrs = rng.sample(range(1, 1 << 24), 2)
             lines = [valid_frame(rng, rng.choice(addrs)) for _ in range(rng.randrange(10, 120))]
+            if hi >= nU:
+                # position histories of one slowly moving aircraft in which every fourth half carries a CPR field of exactly 0
+                # (on a zone edge), so that zero halves follow and precede non-zero halves of either parity within the pairing window
+                lat = F.Fraction(rng.randrange(-8000, 8000), 100); lon = F.Fraction(rng.randrange(-17900, 17900), 100)
+                lines = []
+                for _ in range(rng.randrange(8, 30)):
+                    odd = rng.randrange(2)
+                    la, lo = F.cpr_encode(lat, lon, odd)
+                    if rng.randrange(4) == 0:
+                        la, lo = rng.choice([(0, lo), (la, 0), (0, 0)])
+                    lines.append(F.df17(5, addrs[0], F.me_airpos(11, 0, 0, F.ac12_q1(rng.randrange(40, 2000)), 0, odd, la, lo)))
+                    lat += F.Fraction(rng.randrange(-3, 4), 1000); lon += F.Fraction(rng.randrange(-3, 4), 1000)
             # aircraft repeat themselves: a parked or slow aircraft sends the very same position half, the same identification
             # and the same altitude again and again, with its other frames in between - a third of the frames are verbatim
             # copies of an earlier frame of the history
